@@ -32,7 +32,7 @@ def bounds(tier):
 def goals(tier):
     return ["feature-inherited", "feature-dropped-overlaps-discarded", "feature-touches-boundary-inside", "feature-crosses-boundary-by-one",
             "origin-inside-feature", "minus-strand-inherited", "join-inherited", "vector-feature-inherited", "module-feature-inherited",
-            "zero-length-feature-inherited"]
+            "zero-length-feature-inherited", "twin-features-differing-in-a-qualifier"]
 
 
 # ---------------------------------------------------------------------------------------------
@@ -85,8 +85,16 @@ def run_case(st, base, which, r, spelling, table, scn):
     fs, flen, off = retained(base, which)
     P = asm.constructive_product(base)
     # build the annotated participant at rotation r
+    # two features that differ in a qualifier only (same type, same location, no label -- as plasmids curated with several tools
+    # have them), inside the retained fragment when it is long enough: both must arrive
+    twin_parts = [((fs + 1) % n, (fs + 1) % n + 2, 1)] if flen >= 4 and (fs + 1) % n + 2 <= n else None
+
+    def twins(place):
+        if twin_parts is None:
+            return []
+        return [gen.mk_feature(place(twin_parts), type="regulatory", fid="tw", qualifiers={"note": ["curated by " + who]}) for who in ("A", "B")]
     if spelling == "lib":
-        feats = [gen.mk_feature(parts, type=typ, fid="f%d" % i) for i, (typ, parts) in table]
+        feats = [gen.mk_feature(parts, type=typ, fid="f%d" % i) for i, (typ, parts) in table] + twins(lambda p_: p_)
         try:
             rec = CircularRecord(Seq(s0), id="ann", name="ann", features=feats) >> r
         except Exception as e:
@@ -99,6 +107,7 @@ def run_case(st, base, which, r, spelling, table, scn):
             if canon(rm.denoted(p2, n)) != canon(rm.rotate_denoted(rm.denoted(parts, n), n, r)):
                 raise HarnessError("respelling changed the denoted nucleotides: {} {} {}".format(parts, r, p2))
             feats.append(gen.mk_feature(p2, type=typ, fid="f%d" % i))
+        feats += twins(lambda p_: respell(p_, n, r, spelling))
         rec = CircularRecord(Seq(rm.rot_right(s0, r)), id="ann", name="ann", features=feats)
     ents = []
     for j, s in enumerate(strings):
@@ -166,8 +175,12 @@ def run_case(st, base, which, r, spelling, table, scn):
     st.states += 1
     st.transitions += 1 + len(table)
     got = {}
+    tw_notes = []
     for f in o.record.features:
         if asm.is_generated_source(f):
+            continue
+        if f.type == "regulatory" and "label" not in f.qualifiers:
+            tw_notes.append(asm.qual1(f, "note"))
             continue
         label = asm.qual1(f, "label")
         den = rm.denoted(snapshot.loc_parts(f.location), N)
@@ -187,6 +200,11 @@ def run_case(st, base, which, r, spelling, table, scn):
             st.violation("features", cause, dict(scn, feature=label, parts=dict(table)[int(label[1:])][1]), list(img)[:8], list(gimg)[:8])
         elif gtyp != typ or snapshot._plain(dict(gq)) != snapshot._plain(dict(gen.qualifiers_for(label))):
             st.violation("features", "inherited-feature-type-or-qualifiers-changed", dict(scn, feature=label), [typ], [gtyp, dict(gq)])
+    if twin_parts is not None:
+        st.goal("twin-features-differing-in-a-qualifier")
+        if sorted(tw_notes) != ["curated by A", "curated by B"]:
+            st.violation("features", "one-of-two-features-that-differ-in-a-qualifier-only-is-lost", dict(scn, feature="twins", parts=[list(twin_parts[0])]),
+                         ["curated by A", "curated by B"], sorted(tw_notes))
     for label in got:
         if label in optional:
             continue
